@@ -1026,3 +1026,152 @@ func checkMemoKeyIsArgument(c *core.Ctx, r *core.Rule, prog *core.Prog, pkgs ...
 	}
 	r.Note("memoising map inserts examined: %d", n)
 }
+
+// checkInsertLookupKeyAgreement: a map that is filled and consulted in the same
+// function is an index; the key it is consulted with has to be built the same
+// way as the key it was filled with. The rule compares, per local map, the set
+// of functions applied while building insert keys with the set applied while
+// building lookup keys (through struct literals, conversions and field reads,
+// three levels deep). A normalising function (canonicalisation, case folding,
+// trimming) present on one side only means the lookup misses entries that are
+// there.
+func checkInsertLookupKeyAgreement(c *core.Ctx, r *core.Rule, prog *core.Prog, pkgs ...string) {
+	var keyCalls func(v ssa.Value, depth int, out map[string]bool)
+	keyCalls = func(v ssa.Value, depth int, out map[string]bool) {
+		if depth > 4 {
+			return
+		}
+		switch x := v.(type) {
+		case *ssa.Call:
+			if _, isB := x.Common().Value.(*ssa.Builtin); !isB {
+				out[core.CalleeName(x.Common())] = true
+			}
+		case *ssa.UnOp:
+			// a struct literal built in a local cell: the stores into its fields
+			if al, ok := x.X.(*ssa.Alloc); ok && x.Op == token.MUL {
+				for _, ref := range *al.Referrers() {
+					switch y := ref.(type) {
+					case *ssa.FieldAddr:
+						for _, u := range *y.Referrers() {
+							if st, ok := u.(*ssa.Store); ok && st.Addr == ssa.Value(y) {
+								keyCalls(st.Val, depth+1, out)
+							}
+						}
+					case *ssa.Store:
+						if y.Addr == ssa.Value(al) {
+							keyCalls(y.Val, depth+1, out)
+						}
+					}
+				}
+			}
+		case *ssa.Convert:
+			keyCalls(x.X, depth+1, out)
+		case *ssa.ChangeType:
+			keyCalls(x.X, depth+1, out)
+		case *ssa.MakeInterface:
+			keyCalls(x.X, depth+1, out)
+		case *ssa.Extract:
+			keyCalls(x.Tuple, depth+1, out)
+		case *ssa.Phi:
+			for _, e := range x.Edges {
+				keyCalls(e, depth+1, out)
+			}
+		}
+	}
+	n := 0
+	for _, pp := range pkgs {
+		pkg := prog.ByPath[pp]
+		if pkg == nil {
+			continue
+		}
+		for _, top := range core.PkgFuncs(prog.SSA, pkg) {
+			for _, fn := range core.AllFuncs(top) {
+				type use struct {
+					calls map[string]bool
+					pos   token.Pos
+				}
+				ins := map[ssa.Value][]use{}
+				lks := map[ssa.Value][]use{}
+				for _, b := range fn.Blocks {
+					for _, in := range b.Instrs {
+						switch x := in.(type) {
+						case *ssa.MapUpdate:
+							if _, local := x.Map.(*ssa.MakeMap); local {
+								if _, isConst := x.Key.(*ssa.Const); isConst {
+									continue // a literal table: its keys are written in the form the lookups produce
+								}
+								u := use{map[string]bool{}, x.Pos()}
+								keyCalls(x.Key, 0, u.calls)
+								ins[x.Map] = append(ins[x.Map], u)
+							}
+						case *ssa.Lookup:
+							if _, local := x.X.(*ssa.MakeMap); local {
+								if ex, isEx := x.Index.(*ssa.Extract); isEx {
+									if _, fromRange := ex.Tuple.(*ssa.Next); fromRange {
+										continue // a key obtained by ranging over a sibling map filled with the same keys
+									}
+								}
+								u := use{map[string]bool{}, x.Pos()}
+								keyCalls(x.Index, 0, u.calls)
+								lks[x.X] = append(lks[x.X], u)
+							}
+						}
+					}
+				}
+				for m, is := range ins {
+					ls := lks[m]
+					if len(ls) == 0 {
+						continue
+					}
+					n++
+					insCalls, lkCalls := map[string]bool{}, map[string]bool{}
+					for _, u := range is {
+						for k := range u.calls {
+							insCalls[k] = true
+						}
+					}
+					for _, u := range ls {
+						for k := range u.calls {
+							lkCalls[k] = true
+						}
+					}
+					var onlyIns, onlyLk []string
+					for k := range insCalls {
+						if !lkCalls[k] {
+							onlyIns = append(onlyIns, k)
+						}
+					}
+					for k := range lkCalls {
+						if !insCalls[k] {
+							onlyLk = append(onlyLk, k)
+						}
+					}
+					sort.Strings(onlyIns)
+					sort.Strings(onlyLk)
+					if len(onlyIns)+len(onlyLk) == 0 {
+						r.Ob(true, "")
+						continue
+					}
+					r.Fail(fmt.Sprintf("index-key-mismatch:%s", fnKeyFull(fn)), c.Pos(ls[0].pos), fmt.Sprintf("%s fills a local index with keys built through %v but consults it with keys built through %v: entries whose key changes under the missing function are not found", fn.Name(), orNone(setKeys(insCalls)), orNone(setKeys(lkCalls))))
+				}
+			}
+		}
+	}
+	r.Note("local index maps (filled and consulted in one function): %d", n)
+}
+
+func setKeys(m map[string]bool) []string {
+	var out []string
+	for k := range m {
+		out = append(out, k)
+	}
+	sort.Strings(out)
+	return out
+}
+
+func orNone(xs []string) []string {
+	if len(xs) == 0 {
+		return []string{"(nothing)"}
+	}
+	return xs
+}
